@@ -57,21 +57,79 @@ enum Hi {
 #[derive(Clone, Debug)]
 struct HiCall {
     hi: Hi,
+    /// normalised op stream (see `norm_ops`)
     ops: Vec<IoOp>,
     before: Option<RootT>,
+    /// the writer's control record after the call, if the call returned `Ok`
     after: Option<RootT>,
+    /// the writer's control record after the call, whatever it returned
+    after_any: Option<RootT>,
+    /// `(alloc_end, data_dirty)` after the call
+    state: Option<(i64, bool)>,
+    /// injected I/O failure: (index of the failing I/O call, bytes a failing write still wrote)
+    fault: Option<(usize, usize)>,
 }
 
 type Log = Rc<RefCell<Vec<HiCall>>>;
 
+/// adversary: with probability `pct`% a storage call gets an I/O failure at a random I/O call
+#[derive(Clone)]
+struct FaultPlan {
+    rng: Rng,
+    pct: u64,
+    /// replay: the fault for the next call
+    forced: Option<(usize, usize)>,
+}
+
+type Faults = Rc<RefCell<Option<FaultPlan>>>;
+
+fn next_fault(f: &Faults) -> Option<(usize, usize)> {
+    let mut g = f.borrow_mut();
+    let p = g.as_mut()?;
+    if let Some(x) = p.forced.take() {
+        return Some(x);
+    }
+    if p.pct > 0 && p.rng.chance(p.pct, 100) {
+        let at = p.rng.below(8) as usize;
+        let keep = *p.rng.pick(&[0usize, 1, 3, 4, 7, 12, 19, 40]);
+        Some((at, keep))
+    } else {
+        None
+    }
+}
+
+/// A failed I/O call is logged as the call followed by `Failed { keep }`.  Normal form: a failing
+/// write becomes the write of the bytes that were written followed by the marker; a failing
+/// barrier / fallocate becomes just the marker.
+fn norm_ops(raw: Vec<IoOp>) -> Vec<IoOp> {
+    let mut out: Vec<IoOp> = vec![];
+    for op in raw {
+        if let IoOp::Failed { keep } = op {
+            match out.pop() {
+                Some(IoOp::Pwrite { offset, bytes }) => {
+                    let n = keep.min(bytes.len());
+                    out.push(IoOp::Pwrite { offset, bytes: bytes[..n].to_vec() });
+                }
+                _ => {}
+            }
+            out.push(IoOp::Failed { keep: 0 });
+        } else {
+            out.push(op);
+        }
+    }
+    out
+}
+
 struct SpyManager {
     inner: FileManager,
     log: Log,
+    faults: Faults,
 }
 
 struct SpyWriter {
     inner: Writer,
     log: Log,
+    faults: Faults,
 }
 
 impl IoManager for SpyManager {
@@ -81,14 +139,17 @@ impl IoManager for SpyManager {
         let r = self.inner.create(id);
         self.log.borrow_mut().push(HiCall {
             hi: Hi::Create,
-            ops: verif_io_log::since(from),
+            ops: norm_ops(verif_io_log::since(from)),
             before: None,
             after: r.as_ref().ok().map(|w| w.verif_root()),
+            after_any: r.as_ref().ok().map(|w| w.verif_root()),
+            state: r.as_ref().ok().map(|w| w.verif_state()),
+            fault: None,
         });
-        Ok(SpyWriter { inner: r?, log: self.log.clone() })
+        Ok(SpyWriter { inner: r?, log: self.log.clone(), faults: self.faults.clone() })
     }
     fn open(&mut self, id: GraphId) -> Result<Option<SpyWriter>, StorageError> {
-        Ok(self.inner.open(id)?.map(|w| SpyWriter { inner: w, log: self.log.clone() }))
+        Ok(self.inner.open(id)?.map(|w| SpyWriter { inner: w, log: self.log.clone(), faults: self.faults.clone() }))
     }
     fn remove(&mut self, id: GraphId) -> Result<(), StorageError> {
         self.inner.remove(id)
@@ -119,28 +180,45 @@ impl Write for SpyWriter {
     {
         let from = verif_io_log::len();
         let before = self.inner.verif_root();
-        let r = self.inner.append(builder);
-        let bytes = match &r {
-            Ok(item) => postcard::to_allocvec(item).expect("serialize appended item"),
-            Err(_) => vec![],
-        };
+        let fault = next_fault(&self.faults);
+        // the item is built (and serialised) before any I/O, so its bytes are known even if the
+        // call fails
+        let off = u64::try_from(before.3).unwrap_or(0);
+        let item = builder(off);
+        let bytes = postcard::to_allocvec(&item).expect("serialize appended item");
+        if let Some((at, keep)) = fault {
+            verif_io_log::set_failure(at, keep);
+        }
+        let r = self.inner.append(|_| Raw(bytes.clone()));
+        verif_io_log::clear_failure();
         self.log.borrow_mut().push(HiCall {
             hi: Hi::Append(bytes),
-            ops: verif_io_log::since(from),
+            ops: norm_ops(verif_io_log::since(from)),
             before: Some(before),
             after: r.as_ref().ok().map(|_| self.inner.verif_root()),
+            after_any: Some(self.inner.verif_root()),
+            state: Some(self.inner.verif_state()),
+            fault,
         });
-        r
+        r.map(|_| item)
     }
     fn commit(&mut self, heads: &HeadSet, fact_cache: FactCacheOffset) -> Result<(), StorageError> {
         let from = verif_io_log::len();
         let before = self.inner.verif_root();
+        let fault = next_fault(&self.faults);
+        if let Some((at, keep)) = fault {
+            verif_io_log::set_failure(at, keep);
+        }
         let r = self.inner.commit(heads, fact_cache);
+        verif_io_log::clear_failure();
         self.log.borrow_mut().push(HiCall {
             hi: Hi::Commit(postcard::to_allocvec(heads).expect("serialize head set"), fact_cache.get()),
-            ops: verif_io_log::since(from),
+            ops: norm_ops(verif_io_log::since(from)),
             before: Some(before),
             after: r.as_ref().ok().map(|_| self.inner.verif_root()),
+            after_any: Some(self.inner.verif_root()),
+            state: Some(self.inner.verif_state()),
+            fault,
         });
         r
     }
@@ -182,6 +260,7 @@ fn show_op(o: &IoOp) -> String {
         IoOp::Fdatasync => "ds".into(),
         IoOp::Fsync => "fs".into(),
         IoOp::Fallocate { offset, len } => format!("fa {offset} {len}"),
+        IoOp::Failed { .. } => "!".into(),
     }
 }
 
@@ -196,6 +275,24 @@ fn show_ops(ops: &[IoOp]) -> String {
 fn show_root(t: &RootT) -> String {
     let o = |x: &Option<u64>| x.map_or("none".to_string(), |v| v.to_string());
     format!("ok {} {} {} {} {} {}", t.0, o(&t.1), o(&t.2), t.3, t.4, t.5)
+}
+
+/// request line of a recorded call (with the injected fault, if any) and the real answer
+fn call_req(c: &HiCall) -> (String, String) {
+    match c.fault {
+        None => (call_line(&c.hi), show_ops(&c.ops)),
+        Some((at, keep)) => (
+            format!("{} f {at} {keep}", call_line(&c.hi)),
+            format!("{} {}", show_ops(&c.ops), if c.after.is_some() { "ok" } else { "err" }),
+        ),
+    }
+}
+
+fn show_state(c: &HiCall) -> String {
+    let t = c.after_any.expect("state of a call");
+    let st = c.state.expect("state of a call");
+    let o = |x: &Option<u64>| x.map_or("none".to_string(), |v| v.to_string());
+    format!("{} {} {} {} {} {} {} {}", t.0, o(&t.1), o(&t.2), t.3, t.4, t.5, st.0, st.1 as u8)
 }
 
 fn call_line(h: &Hi) -> String {
@@ -244,6 +341,7 @@ impl Sim {
             IoOp::Fallocate { offset, len } => {
                 self.size_pending = Some((*offset + *len) as u64);
             }
+            IoOp::Failed { .. } => {}
         }
     }
 
@@ -357,8 +455,9 @@ fn commits_done(calls: &[HiCall]) -> usize {
 }
 
 /// run a graph workload on the real storage, recording calls, ops and snapshots
-fn record_workload(rec: &mut Recorder, rng: &mut Rng, root: &Path, size: usize) -> Case {
+fn record_workload(rec: &mut Recorder, rng: &mut Rng, root: &Path, size: usize, fault_pct: u64) -> Case {
     let dir = fresh_dir(root, "live");
+    let faults: Faults = Rc::new(RefCell::new(Some(FaultPlan { rng: rng.fork(), pct: 0, forced: None })));
     let p = DagParams {
         max_nodes: size,
         branch_pct: 40,
@@ -374,7 +473,7 @@ fn record_workload(rec: &mut Recorder, rng: &mut Rng, root: &Path, size: usize) 
     let graph = graph_id_of(&cmds[0]);
     let log: Log = Rc::new(RefCell::new(vec![]));
     verif_io_log::start();
-    let mgr = SpyManager { inner: FileManager::new(&dir).expect("FileManager"), log: log.clone() };
+    let mgr = SpyManager { inner: FileManager::new(&dir).expect("FileManager"), log: log.clone(), faults: faults.clone() };
     let mut r = Replica::new(LinearStorageProvider::new(mgr), graph);
     let mut snaps = BTreeMap::new();
     let mut i = 0;
@@ -387,7 +486,25 @@ fn record_workload(rec: &mut Recorder, rng: &mut Rng, root: &Path, size: usize) 
                     if s.heads.len() >= 2 {
                         rec.count("live:multi_head_state");
                     }
-                    snaps.insert(k, s);
+                    // the oracle for commit k is the FIRST snapshot taken while k commits had
+                    // returned Ok; later ones (after failed calls) are only compared with it
+                    match snaps.get(&k) {
+                        None => {
+                            snaps.insert(k, s);
+                        }
+                        Some(first) if *first != s => {
+                            rec.count("note:live_state_changed_without_successful_commit");
+                            rec.sample(format!(
+                                "live (uncrashed) storage after a FAILED call differs from the last successfully committed state {k}: heads {} vs {}, facts {} vs {}",
+                                show_ids(&s.heads), show_ids(&first.heads), s.facts, first.facts
+                            ));
+                        }
+                        Some(_) => {}
+                    }
+                }
+                Err(e) if fault_pct > 0 => {
+                    rec.count("note:live_storage_unreadable_after_failed_call");
+                    rec.sample(format!("live storage unreadable after a failed call (commit {k}): {e}"));
                 }
                 Err(e) => rec.oracle_fail(format!("live storage unreadable after commit {k}: {e}")),
             }
@@ -409,6 +526,9 @@ fn record_workload(rec: &mut Recorder, rng: &mut Rng, root: &Path, size: usize) 
             Err(e) => rec.count(&format!("live:commit_err:{}", err_name(&e))),
         }
         take_snap(&mut r, rec);
+        if let Some(p) = faults.borrow_mut().as_mut() {
+            p.pct = fault_pct; // the graph exists now: storage calls may start to fail
+        }
         if rng.chance(1, 3) {
             nonce += 1;
             let body = gen_body(rng, &p);
@@ -443,6 +563,7 @@ fn record_workload(rec: &mut Recorder, rng: &mut Rng, root: &Path, size: usize) 
 /// Continue on a reopened crash image: the image file is put into a fresh directory, opened with
 /// the real provider (spy on), and a few more actions / commits are run on it.
 fn record_continuation(rec: &mut Recorder, rng: &mut Rng, root: &Path, graph: GraphId, base: Base, actions: usize) -> Case {
+    let faults: Faults = Rc::new(RefCell::new(None));
     let dir = fresh_dir(root, "live");
     let (img, size) = base.sim.crash(&[], false);
     {
@@ -452,7 +573,7 @@ fn record_continuation(rec: &mut Recorder, rng: &mut Rng, root: &Path, graph: Gr
     }
     let log: Log = Rc::new(RefCell::new(vec![]));
     verif_io_log::start();
-    let mgr = SpyManager { inner: FileManager::new(&dir).expect("FileManager"), log: log.clone() };
+    let mgr = SpyManager { inner: FileManager::new(&dir).expect("FileManager"), log: log.clone(), faults: faults.clone() };
     let mut r = Replica::new(LinearStorageProvider::new(mgr), graph);
     let mut snaps = BTreeMap::new();
     let p = DagParams::default();
@@ -533,10 +654,14 @@ fn records(calls: &[HiCall], upto: usize) -> Vec<(u64, Vec<u8>)> {
             Hi::Append(b) | Hi::Commit(b, _) => b,
             Hi::Create => continue,
         };
-        if let (Some(before), Some(_)) = (c.before, c.after) {
-            let mut e = (b.len() as u32).to_be_bytes().to_vec();
-            e.extend_from_slice(b);
-            v.push((before.3 as u64, e));
+        if let (Some(before), Some(after)) = (c.before, c.after_any) {
+            // the item was appended iff the write frontier moved past it (also true for a commit
+            // that failed after its head-set append)
+            if after.3 == before.3 + 4 + b.len() as i64 {
+                let mut e = (b.len() as u32).to_be_bytes().to_vec();
+                e.extend_from_slice(b);
+                v.push((before.3 as u64, e));
+            }
         }
     }
     v
@@ -616,6 +741,37 @@ fn check_image(cx: &mut Ctx, rec: &mut Recorder, sim: &Sim, ci: usize, k: usize,
             } else if inprog.map_or(false, same) {
                 rec.count("verdict:in_progress");
                 done + 1
+            } else if let Some(c) = calls[..=ci].iter().enumerate().find(|(i, c)| {
+                // a commit that reported an error after its root write had been issued (injected
+                // I/O failure): its root may legitimately become visible, it is newer than the
+                // last commit that returned Ok and everything it refers to was synced before
+                matches!(c.hi, Hi::Commit(..))
+                    && c.after.is_none()
+                    && (*i < ci || k > 0)
+                    && c.before.zip(c.after_any).map_or(false, |(b, a)| a.0 == b.0 + 1 && rec5(a) == rec5(*t))
+                    && root_of(done).map_or(true, |r| r.0 <= t.0)
+            }) {
+                let _ = c;
+                rec.count("verdict:failed_commit_whose_root_write_was_issued");
+                // records below its frontier must be intact; API read-back without content oracle
+                let file = fs::read(&path).expect("read image");
+                for (off, bytes) in cx.case.base.records.iter().cloned().chain(records(calls, calls.len())) {
+                    let end = off as usize + bytes.len();
+                    if end as i64 <= t.3 && file.get(off as usize..end) != Some(&bytes[..]) {
+                        fail(cx, rec, what(format!("record at offset {off} (below the recovered free offset {}) is not intact in the image", t.3)));
+                        return verdict;
+                    }
+                }
+                if cx.case.dangling.is_empty() && cx.case.base.api_ok {
+                    let fm = FileManager::new(&dir).expect("FileManager on image dir");
+                    let mut r = Replica::new(LinearStorageProvider::new(fm), cx.case.graph);
+                    match vh::catch(std::panic::AssertUnwindSafe(|| snapshot(&mut r))) {
+                        Err(p) => rec.panics.push(what(format!("panic while reading the recovered state: {p}"))),
+                        Ok(Err(e)) => fail(cx, rec, what(format!("recovered failed-commit root: reachable data unreadable: {e}"))),
+                        Ok(Ok(_)) => rec.count("readback:ok"),
+                    }
+                }
+                return verdict;
             } else {
                 let m = (0..=commit_roots.len()).find(|j| same(*j));
                 fail(cx, rec, what(format!(
@@ -794,9 +950,14 @@ fn explore(rec: &mut Recorder, rng: &mut Rng, case: &Case, root: &Path, per_poin
     let mut point = 0usize;
     let ncalls = case.calls.len();
     for (ci, call) in case.calls.iter().enumerate() {
-        rec.line(call_line(&call.hi), show_ops(&call.ops));
+        let (rq, rl) = call_req(call);
+        rec.line(rq, rl);
+        if call.fault.is_some() {
+            rec.count(if call.after.is_some() { "fault:armed_but_call_ok" } else { "fault:call_failed" });
+            rec.line("state", show_state(call));
+        }
         rec.count(&format!("call:{}", call_line(&call.hi).split(' ').next().unwrap()));
-        if call.after.is_none() {
+        if call.after.is_none() && call.fault.is_none() {
             rec.oracle_fail(format!("{label}: storage call #{ci} failed on the live file"));
         }
         let m = call.ops.len();
@@ -853,7 +1014,7 @@ fn make_base(cx_root: &Path, case: &Case, ci: usize, k: usize, chi: &[String]) -
     let mut sim = case.base.sim.clone();
     let mut prefix = case.base.prefix_lines.clone();
     for (i, c) in case.calls.iter().enumerate().take(ci + 1) {
-        prefix.push((call_line(&c.hi), show_ops(&c.ops)));
+        prefix.push(call_req(c));
         let upto = if i == ci { k } else { c.ops.len() };
         for o in &c.ops[..upto] {
             sim.exec(o);
@@ -913,7 +1074,8 @@ fn replay(rec: &mut Recorder, root: &Path, lines: &[String]) {
     let graph = GraphId::transmute(hash_id(b"c15-replay"));
     let log: Log = Rc::new(RefCell::new(vec![]));
     verif_io_log::start();
-    let mut mgr = SpyManager { inner: FileManager::new(&dir).expect("FileManager"), log: log.clone() };
+    let faults: Faults = Rc::new(RefCell::new(Some(FaultPlan { rng: Rng::new(0), pct: 0, forced: None })));
+    let mut mgr = SpyManager { inner: FileManager::new(&dir).expect("FileManager"), log: log.clone(), faults: faults.clone() };
     let mut w: Option<SpyWriter> = None;
     let mut base = Base::default();
     let mut start = 0usize; // first call (index into the log) of the current segment
@@ -933,16 +1095,25 @@ fn replay(rec: &mut Recorder, root: &Path, lines: &[String]) {
                 w = mgr.create(graph).ok();
                 rec.line(l.clone(), show_ops(&log.borrow().last().expect("logged").ops));
             }
-            "append" if t.len() == 2 && w.is_some() => {
-                let b = unhex(t[1]).expect("hex");
-                let _ = w.as_mut().unwrap().append(|_| Raw(b));
-                rec.line(l.clone(), show_ops(&log.borrow().last().expect("logged").ops));
+            "state" if log.borrow().len() > start && log.borrow().last().map_or(false, |c| c.state.is_some()) => {
+                rec.line(l.clone(), show_state(log.borrow().last().unwrap()));
             }
-            "commit" if t.len() == 3 && w.is_some() => {
+            "append" if (t.len() == 2 || (t.len() == 5 && t[2] == "f")) && w.is_some() => {
+                let b = unhex(t[1]).expect("hex");
+                if t.len() == 5 {
+                    faults.borrow_mut().as_mut().unwrap().forced = Some((t[3].parse().expect("at"), t[4].parse().expect("keep")));
+                }
+                let _ = w.as_mut().unwrap().append(|_| Raw(b));
+                rec.line(l.clone(), call_req(log.borrow().last().expect("logged")).1);
+            }
+            "commit" if (t.len() == 3 || (t.len() == 6 && t[3] == "f")) && w.is_some() => {
                 let b = unhex(t[1]).expect("hex");
                 let heads: HeadSet = postcard::from_bytes(&b).expect("head set bytes");
+                if t.len() == 6 {
+                    faults.borrow_mut().as_mut().unwrap().forced = Some((t[4].parse().expect("at"), t[5].parse().expect("keep")));
+                }
                 let _ = w.as_mut().unwrap().commit(&heads, FactCacheOffset::new(t[2].parse().expect("fact")));
-                rec.line(l.clone(), show_ops(&log.borrow().last().expect("logged").ops));
+                rec.line(l.clone(), call_req(log.borrow().last().expect("logged")).1);
                 // the oracle of a replay: the uncrashed state after this commit, read back from a
                 // copy of the file (all writes applied).  A shrunk / edited replay may contain
                 // head sets or items that dangle; then the API read-back is not demanded.
@@ -1047,16 +1218,21 @@ fn main() {
     let mut rng = Rng::new(args.seed);
     let deep = args.thorough() || args.search;
     // (workload size, χ per crash point, stride over crash points without a pending root write)
-    let plan: Vec<(usize, usize, usize)> = if deep {
-        vec![(6, 64, 1), (14, 64, 1), (24, 64, 1), (40, 64, 1)]
+    // (workload size, χ per crash point, stride over crash points without a pending root write,
+    //  percentage of storage calls that get an injected I/O failure)
+    let plan: Vec<(usize, usize, usize, u64)> = if deep {
+        vec![(6, 64, 1, 0), (14, 64, 1, 0), (24, 64, 1, 0), (40, 64, 1, 0), (10, 24, 1, 50), (16, 24, 1, 30), (24, 24, 1, 40)]
     } else {
-        vec![(5, 3, 2), (10, 3, 4)]
+        vec![(5, 3, 2, 0), (10, 3, 4, 0), (8, 3, 2, 50), (10, 3, 2, 35)]
     };
     let mut images = 0;
-    for (n, (size, per_point, stride)) in plan.into_iter().enumerate() {
+    for (n, (size, per_point, stride, fault_pct)) in plan.into_iter().enumerate() {
         rec.begin_case();
-        let label = format!("case{n}");
-        let case = record_workload(&mut rec, &mut rng, &root, size);
+        let label = if fault_pct > 0 { format!("case{n}.faults") } else { format!("case{n}") };
+        let case = record_workload(&mut rec, &mut rng, &root, size, fault_pct);
+        if fault_pct > 0 {
+            rec.count("cases_with_io_faults");
+        }
         let commits = commits_done(&case.calls);
         rec.count_n("commits", commits as u64);
         rec.count_n("ops", case.calls.iter().map(|c| c.ops.len() as u64).sum());
@@ -1100,7 +1276,7 @@ fn main() {
         if let Some(ci) = (0..case.calls.len()).rev().find(|&i| matches!(case.calls[i].hi, Hi::Append(..))) {
             picks.push((ci, case.calls[ci].ops.len(), vec![]));
         }
-        if !deep && n == 0 {
+        if (!deep && n == 0) || fault_pct > 0 {
             picks.clear();
         }
         for (pi, (ci, k, chi)) in picks.into_iter().enumerate() {
